@@ -1,6 +1,7 @@
 import RosuModel.Lemmas.GradualOsu
 import RosuModel.Lemmas.GradualCatch
 import RosuModel.Lemmas.GradualMania
+import RosuModel.Lemmas.GradualTaiko
 
 /-!
 # C02 — gradual difficulty equals difficulty of the played prefix
@@ -222,6 +223,59 @@ theorem mania_gradual_ne_oneshot_witness :
 
 /-! ## osu!taiko — the statement is false of the code -/
 
+
+
+/-- **taiko (partial)**: on a map whose first two objects are hits and that has at least three
+objects (`true :: true :: rest`, `rest ≠ []`), the first `H` calls of `next` (`H` = number of hits)
+return exactly the one-shot results for `passed_objects = 1, …, H`, the next call returns `None`,
+and `len()` announces `H`.  Both hypotheses are necessary: see the witnesses below. -/
+theorem taiko_next_eq_prefix_partial (sk : Skills S) (rest : List Bool) (hne : rest ≠ []) :
+    let objs := true :: true :: rest
+    let H := 2 + hitsIn rest
+    ((taikoMachine sk objs).nexts (taikoNew sk objs) H).1 =
+      (List.range H).map (fun d => Res.some (taikoOneShot sk objs (d + 1))) ∧
+    ((taikoMachine sk objs).next ((taikoMachine sk objs).nexts (taikoNew sk objs) H).2).1 = .none ∧
+    (taikoMachine sk objs).len (taikoNew sk objs) = some H := by
+  intro objs H
+  obtain ⟨h1, h2, hc2⟩ := taiko_first_two sk rest hne
+  obtain ⟨hv, hc⟩ := taiko_nexts_spec sk rest (hitsIn rest) _ 2 hc2 (by omega)
+  have hH : H = hitsIn rest + 1 + 1 := by omega
+  have hn1 : (taikoMachine sk objs).next (taikoNew sk objs) =
+      (Res.some (taikoValue sk rest 1), (taikoNext sk objs (taikoNew sk objs)).2) := by
+    show (optToRes (taikoNext sk objs (taikoNew sk objs)).1, _) = _
+    rw [h1]; rfl
+  have hn2 : (taikoMachine sk objs).next (taikoNext sk objs (taikoNew sk objs)).2 =
+      (Res.some (taikoValue sk rest 2), (taikoNext sk objs (taikoNext sk objs (taikoNew sk objs)).2).2) := by
+    show (optToRes (taikoNext sk objs (taikoNext sk objs (taikoNew sk objs)).2).1, _) = _
+    rw [h2]; rfl
+  have hvals : ∀ d, d < H → taikoOneShot sk objs (d + 1) = taikoValue sk rest (d + 1) := fun d hd =>
+    taikoOneShot_regular sk rest (d + 1) (by omega) (by omega)
+  refine ⟨?_, ?_, ?_⟩
+  · rw [hH]
+    simp only [Machine.nexts, hn1, hn2]
+    rw [hv]
+    rw [List.range_succ_eq_map, List.range_succ_eq_map]
+    simp only [List.map_cons, List.map_map]
+    rw [hvals 0 (by omega), hvals 1 (by omega)]
+    congr 2
+    apply List.map_congr_left
+    intro d hd
+    have hdlt : d < hitsIn rest := by simpa using hd
+    simp only [Function.comp]
+    rw [hvals (d + 1 + 1) (by omega)]
+    congr 2
+    omega
+  · rw [hH]
+    simp only [Machine.nexts, hn1, hn2]
+    have hce : 2 + hitsIn rest = 2 + hitsIn rest := rfl
+    have := (taikoNext_spec sk rest _ _ hc).2 rfl
+    show (optToRes (taikoNext sk objs _).1) = _
+    rw [this]; rfl
+  · show csub ((objs.filter id).length) 0 = some H
+    have : (objs.filter id).length = H := by
+      show hitsIn objs = H
+      simp only [objs, hitsIn_cons]; simp; omega
+    rw [this]; rfl
 
 /-- First object is a hit, second is not: the second gradual value differs from
 `passed_objects(2)` (gradual reports combo 1 where one-shot has already counted the second
